@@ -2,6 +2,7 @@
 import json, os, sys, time
 
 VERIF = os.path.dirname(os.path.dirname(os.path.abspath(__file__)))
+EVDIR = os.environ.get('VERIF_EVIDENCE_DIR') or os.path.join(VERIF, 'evidence')
 
 
 class Report:
@@ -69,7 +70,7 @@ class Report:
             if o['key'] in seen_known: continue
             seen_known.add(o['key'])
             lines.append(f"KNOWN-FINDING: property={self.prop} {o['rule']} {o['site']}: {known_keys[o['key']].get('what', o['why'])}")
-        vdir = os.path.join(VERIF, 'evidence', 'violations'); os.makedirs(vdir, exist_ok=True)
+        vdir = os.path.join(EVDIR, 'violations'); os.makedirs(vdir, exist_ok=True)
         for f in os.listdir(vdir):
             if f.startswith(self.prop + '-'): os.remove(os.path.join(vdir, f))
         exit_code = 0
@@ -134,6 +135,6 @@ class Report:
             wall_s=round(time.time() - self.t0 + float(extraction_info.get('wall_s', 0)), 2),
             violations=len(uniq),
         )
-        os.makedirs(os.path.join(VERIF, 'evidence'), exist_ok=True)
-        json.dump(ev, open(os.path.join(VERIF, 'evidence', f'{self.prop}.json'), 'w'), indent=1)
+        os.makedirs(EVDIR, exist_ok=True)
+        json.dump(ev, open(os.path.join(EVDIR, f'{self.prop}.json'), 'w'), indent=1)
         return exit_code, lines
